@@ -850,8 +850,11 @@ func (f *Frame) exec(instr ssa.Instruction, st *State) {
 			st.iters[in] = "0"
 			f.set(in, Val{T: in.Type(), S: x.S})
 		} else {
-			// map iteration: ghost iteration index
+			// map iteration: ghost iteration index and ghost set of visited keys
 			st.iters[in] = "0"
+			if mt, ok := in.X.Type().Underlying().(*types.Map); ok {
+				st.visited[in] = "((as const (Array " + e.sortOf(mt.Key()) + " Bool)) false)"
+			}
 			f.set(in, Val{T: in.Type(), S: x.S})
 		}
 	case *ssa.Next:
@@ -1361,6 +1364,17 @@ func (f *Frame) execNext(in *ssa.Next, st *State) {
 	okT := e.define("mok", "Bool", sAnd(sNot(sEq(m, "0")), fmt.Sprintf("(< %s %s)", idx, size)))
 	k := e.havocVal(mt.Key(), "mk", st)
 	e.assume(okT, fmt.Sprintf("(select (select %s %s) %s)", e.getMapD(st, mt), m, k.S))
+	if vis, ok := st.visited[rng]; ok {
+		// every iteration yields a key not yielded before; when the iteration ends every present key has been yielded
+		// (Go guarantees this for a map that is not inserted into while being ranged over - checked syntactically)
+		e.assume(okT, fmt.Sprintf("(not (select %s %s))", vis, k.S))
+		if !mapInsertedInLoop(rng, mt) {
+			ks := e.sortOf(mt.Key())
+			e.assume(sNot(okT), fmt.Sprintf("(forall ((k!v %s)) (! (=> (select (select %s %s) k!v) (select %s k!v)) :pattern ((select %s k!v)) :pattern ((select (select %s %s) k!v))))", ks, e.getMapD(st, mt), m, vis, vis, e.getMapD(st, mt), m))
+			e.assumed["range over a map yields every key exactly once (the map is not inserted into during the loop: checked syntactically per map type)"] = true
+		}
+		st.visited[rng] = e.define("vis", "(Array "+e.sortOf(mt.Key())+" Bool)", sIte(okT, fmt.Sprintf("(store %s %s true)", vis, k.S), vis))
+	}
 	v := e.define("mval", e.sortOf(mt.Elem()), fmt.Sprintf("(select (select %s %s) %s)", e.getMapV(st, mt), m, k.S))
 	vv := Val{T: mt.Elem(), S: v}
 	e.assumeTyping(st, vv)
@@ -1368,6 +1382,26 @@ func (f *Frame) execNext(in *ssa.Next, st *State) {
 	tup := in.Type().(*types.Tuple)
 	f.set(in, Val{T: in.Type(), Tuple: []Val{{T: tup.At(0).Type(), S: okT}, k, vv}})
 	e.mapIterKey(f, rng, k.S, idx, okT)
+}
+
+// mapInsertedInLoop: some instruction of the function inserts into (or deletes from) a map of the ranged map's type.
+func mapInsertedInLoop(rng *ssa.Range, mt *types.Map) bool {
+	fn := rng.Parent()
+	for _, b := range fn.Blocks {
+		for _, in := range b.Instrs {
+			switch in := in.(type) {
+			case *ssa.MapUpdate:
+				if types.Identical(in.Map.Type().Underlying(), mt) {
+					return true
+				}
+			case *ssa.Call:
+				if bi, ok := in.Call.Value.(*ssa.Builtin); ok && bi.Name() == "delete" && len(in.Call.Args) > 0 && types.Identical(in.Call.Args[0].Type().Underlying(), mt) {
+					return true
+				}
+			}
+		}
+	}
+	return false
 }
 
 // utf8dec: precise UTF-8 decoder on (s, off): returns (rune, width) terms.
